@@ -1335,6 +1335,9 @@ func main() {
 		for i := 0; i < n/2+8; i++ {
 			emitSign(w, seed, i)
 		}
+		for i := 0; i < n; i++ {
+			emitHistory(w, seed, i)
+		}
 		w.Close()
 	case "genjv":
 		var n int
@@ -1371,6 +1374,8 @@ func replay(in map[string]any, dir, repo string) {
 		emitReserialise(w, seed, num("reser_index"), dir)
 	case "fixture":
 		emitFixtures(w, repo)
+	case "history":
+		emitHistory(w, seed, num("history_index"))
 	case "sign", "sign-envelope", "sign-verify", "sign-good":
 		emitSign(w, seed, num("sign_index"))
 	case "value":
